@@ -299,5 +299,7 @@ fn main() {
     });
     let _ = BigInt::zero();
     let _ = BigDecimal::from(0);
+    // ... and against the subject built under a non-default compile-time configuration (mc/variants/cfg_alt/build.env)
+    run.variant("cfg_alt");
     run.finish();
 }
